@@ -181,8 +181,12 @@ def _mutation_wrapper(
     @wraps(method)
     def wrapped(*args, **kwargs):
         with MutationContext(module, method, attribute):
-            # This handles the case of an `EvolvableWrapper`
-            if attribute not in module.mutation_methods:
+            # A disabled mutation method refuses to run (e.g. as the fall-back of another method),
+            # unless the module is wrapped by an `EvolvableWrapper`, which advertises the methods
+            # in its place and forwards to them
+            if attribute not in module.mutation_methods and not getattr(
+                module, "_forwarded_by_wrapper", False
+            ):
                 module.last_mutation_attr = None
                 module.last_mutation = None
                 return
@@ -706,6 +710,7 @@ class EvolvableWrapper(EvolvableModule):
         # Disable mutations in the wrapped module since these are
         # now handled by the wrapper
         module.disable_mutations()
+        module._forwarded_by_wrapper = True
         self._wrapped = module
 
     @property
